@@ -220,6 +220,9 @@ fn build_docs(server: &Server, mode: Mode) -> Docs {
 }
 
 thread_local! {
+    /// C24 only claims what its statement says: a fatal error after a
+    /// crash is recorded as an outcome there, not as a violation.
+    pub static FATAL_IS_OUTCOME: std::cell::Cell<bool> = const { std::cell::Cell::new(false) };
     static DOCS: RefCell<Option<Docs>> = const { RefCell::new(None) };
     static REQUESTS: RefCell<Vec<String>> = const { RefCell::new(Vec::new()) };
 }
@@ -335,7 +338,7 @@ pub fn client_update(
     drop(run);
     DOCS.with(|d| *d.borrow_mut() = None);
     let requests = REQUESTS.with(|r| r.borrow().clone());
-    if result == "fatal" {
+    if result == "fatal" && !FATAL_IS_OUTCOME.with(|f| f.get()) {
         return Err(("fatal-error".into(), "the update ended the run with a fatal error".into()))
     }
     let local = read_local(&w.path).map_err(|e| ("local-copy-unreadable".to_string(), e));
